@@ -282,6 +282,8 @@ def term_of(x, want_real=False):
     t = real_val(x)
   elif z3.is_expr(x):
     t = x
+  elif isinstance(x, np.ndarray) and x.ndim == 0:
+    return term_of(x.item(), want_real)
   else:
     raise TypeError('no term for %r' % type(x))
   if want_real and t.sort() == z3.IntSort():
@@ -855,6 +857,15 @@ class SymArr(np.ndarray):
       return tuple(fix(k) for k in key)
     return fix(key)
 
+  def __array_wrap__(self, arr, context=None, return_scalar=False):
+    if arr.dtype != object:
+      arr = arr.view(np.ndarray)
+    elif not isinstance(arr, SymArr):
+      arr = arr.view(SymArr)
+    if arr.ndim == 0:
+      return arr[()]
+    return arr
+
   def __getitem__(self, key):
     return super().__getitem__(self._fix_key(key))
 
@@ -867,9 +878,13 @@ class SymArr(np.ndarray):
     if has_sym(self):
       if dtype in (float, np.float64, 'float', 'float64', np.dtype(float)) or dtype is None:
         return self.copy() if k.get('copy', True) else self
-      if dtype in (int, np.intp, np.int64, 'int') and all(
-              (not isinstance(v, Sym)) or v.is_int for v in self.flat):
-        return self.copy() if k.get('copy', True) else self
+      if dtype in (int, np.intp, np.int64, 'int'):
+        if all((not isinstance(v, Sym)) or v.is_int for v in self.flat):
+          return self.copy() if k.get('copy', True) else self
+        out = np.empty(self.shape, dtype=object)
+        for idx in np.ndindex(*self.shape):
+          out[idx] = trunc_to_int(self[idx])
+        return out.view(SymArr)
       if dtype is object or dtype == np.dtype(object):
         return np.ndarray.astype(self, dtype, *a, **k)
       raise SymbolicRealisation('astype(%r) of a symbolic array' % (dtype,))
@@ -879,6 +894,18 @@ class SymArr(np.ndarray):
     if self.size == 1:
       return bool(self.item())
     raise ValueError('truth value of an array with more than one element is ambiguous')
+
+
+def trunc_to_int(v):
+  """C cast double -> integer: truncation toward zero"""
+  if isinstance(v, SymBool):
+    return v._n()
+  if not isinstance(v, Sym):
+    return int(v)
+  if v.is_int:
+    return v
+  t = v.t
+  return Sym(z3.If(t >= 0, z3.ToInt(t), -z3.ToInt(-t)))
 
 
 def has_sym(a):
